@@ -142,6 +142,7 @@ func c09Exec(c *c09Case, faults map[int]c09F, st *CaseStats) (rewrites int, repa
 	armedAt := 0            // which commit of the request (counted from arming)
 	var unresolved []uint64 // revisions of unknown-outcome commits not known to be resolved (harness bookkeeping)
 	var armedRev uint64     // revision stamped on the faulted commit
+	var maxRevSeen uint64   // highest revision any commit (client or repair) carried so far
 	armedApplied := false
 	answeredUnknown := false // the engine really answered 'outcome unknown' to the armed commit
 	repairArmed := c.RepairFault
@@ -154,6 +155,9 @@ func c09Exec(c *c09Case, faults map[int]c09F, st *CaseStats) (rewrites int, repa
 		defer mu.Unlock()
 		if ci.Rev == 0 {
 			return Pass // compaction record etc.
+		}
+		if ci.Rev > maxRevSeen {
+			maxRevSeen = ci.Rev
 		}
 		if ci.Client < 0 {
 			// a commit without a client: the background repair (rewrite) of an unknown-outcome write
@@ -268,24 +272,43 @@ func c09Exec(c *c09Case, faults map[int]c09F, st *CaseStats) (rewrites int, repa
 		}
 		return nil
 	}
+	// settleAll: an unknown-outcome write (a client's or a repair's own rewrite) is queued when the sequencer consumes
+	// its revision; wait until it has consumed every revision a commit has carried so far, only then is the queue's
+	// length meaningful
+	settleAll := func() error {
+		if err := env.Settle(); err != nil {
+			return err
+		}
+		mu.Lock()
+		mx := maxRevSeen
+		mu.Unlock()
+		if !WaitCommitted(env.B, mx, 10*time.Second) {
+			return fmt.Errorf("read revision stuck at %d, a commit carried revision %d", env.B.GetCurrentRevision(), mx)
+		}
+		return nil
+	}
 	waitDrain := func() error {
 		deadline := time.Now().Add(10 * time.Second)
-		// an unknown-outcome write is queued when the sequencer consumes its revision: wait for that first
-		if err := env.Settle(); err != nil {
+		if err := settleAll(); err != nil {
 			return err
 		}
 		if !c.Timed {
 			// a faulted repair write re-enqueues itself: repeat until the queue is empty
 			for i := 0; i < 8 && backend.RetryQueueLenForVerif(env.B) > 0; i++ {
-				if err := env.Settle(); err != nil {
+				backend.RetryNowForVerif(env.B)
+				time.Sleep(200 * time.Microsecond)
+				if err := settleAll(); err != nil {
 					return err
 				}
-				backend.RetryNowForVerif(env.B)
-				WaitCommitted(env.B, env.B.GetCurrentRevision()+0, time.Second)
-				time.Sleep(200 * time.Microsecond)
 			}
 		}
-		for backend.RetryQueueLenForVerif(env.B) > 0 {
+		for {
+			if err := settleAll(); err != nil {
+				return err
+			}
+			if backend.RetryQueueLenForVerif(env.B) == 0 {
+				break
+			}
 			if time.Now().After(deadline) {
 				return fmt.Errorf("the repair queue did not drain within 10s (%d entries, oldest revision %d)", backend.RetryQueueLenForVerif(env.B), backend.RetryMinRevisionForVerif(env.B))
 			}
@@ -306,13 +329,15 @@ func c09Exec(c *c09Case, faults map[int]c09F, st *CaseStats) (rewrites int, repa
 			if c.Timed {
 				continue
 			}
-			if err := env.Settle(); err != nil {
+			if err := settleAll(); err != nil {
 				return rewrites, repairFaulted, fmt.Errorf("step %d: %v", si, err)
 			}
 			before := backend.RetryQueueLenForVerif(env.B)
 			backend.RetryNowForVerif(env.B)
 			time.Sleep(200 * time.Microsecond)
-			_ = env.Settle()
+			if err := settleAll(); err != nil {
+				return rewrites, repairFaulted, fmt.Errorf("step %d: %v", si, err)
+			}
 			after := backend.RetryQueueLenForVerif(env.B)
 			switch {
 			case after == 0:
@@ -335,7 +360,7 @@ func c09Exec(c *c09Case, faults map[int]c09F, st *CaseStats) (rewrites int, repa
 				return rewrites, repairFaulted, fmt.Errorf("step %d: %v", si, err)
 			}
 		case s.Compact:
-			if err := env.Settle(); err != nil {
+			if err := settleAll(); err != nil {
 				return rewrites, repairFaulted, fmt.Errorf("step %d: %v", si, err)
 			}
 			minBefore := backend.RetryMinRevisionForVerif(env.B)
@@ -486,7 +511,13 @@ func c09Exec(c *c09Case, faults map[int]c09F, st *CaseStats) (rewrites int, repa
 	}
 	// replaying the delivered events over the earlier snapshot yields the final state
 	if err := c06Judge(l1.Kvs, r1, evs, kvs, l2.Header.Revision, "convergence"); err != nil {
-		return rewrites, repairFaulted, err
+		dbg := fmt.Sprintf("\n  [debug] repair queue now: %d entries (oldest %d); commit attempts:", backend.RetryQueueLenForVerif(env.B), backend.RetryMinRevisionForVerif(env.B))
+		if env.Shim != nil {
+			for _, a := range env.Shim.Attempts {
+				dbg += fmt.Sprintf(" [#%d client %d rev %d]", a.Seq, a.Client, a.Rev)
+			}
+		}
+		return rewrites, repairFaulted, fmt.Errorf("%v%s", err, dbg)
 	}
 	return rewrites, repairFaulted, nil
 }
